@@ -695,7 +695,19 @@ func checkCheckKeys(c *fw.Ctx) {
 		case nst == 0:
 			c.Undecided(rule, construct, "no store to KeyChecks.AllChecksOK found in the region of CheckKeys")
 		case withKey == 0 && undec == 0:
-			c.Fail(rule, construct, c.P.Pos(fn.Pos()), "no assignment of AllChecksOK requires HasEd25519Key: a response without any ed25519 key passes all checks")
+			// positive evidence needs the presence flag to be what the rule thinks it is: the
+			// assignments must be written in terms of the KeyChecks fields
+			usesFields := false
+			for _, ds := range deepFieldStores(fn, "KeyChecks", "AllChecksOK") {
+				if s := fw.Sig(ds.St.Val); strings.Contains(s, ".MatchingServerName") || strings.Contains(s, ".FutureValidUntilTS") || strings.Contains(s, ".AllChecksOK") {
+					usesFields = true
+				}
+			}
+			if usesFields {
+				c.Fail(rule, construct, c.P.Pos(fn.Pos()), "no assignment of AllChecksOK requires HasEd25519Key: a response without any ed25519 key passes all checks")
+			} else {
+				c.Undecided(rule, construct, "AllChecksOK is assigned from values that are not the KeyChecks fields (a report object): whether the presence of an ed25519 key is among them was not traced")
+			}
 		}
 	}
 	if v := mustFunc(c, rule, "checkVerifyKeys"); v != nil {
